@@ -7,8 +7,8 @@
 EXTENDS Registry, Json, IOUtils
 
 Rec == ndJsonDeserialize(IOEnv.TRACE)
-VARIABLES l, bad5, bad6, f2, drift, sid
-tvars == <<vars, l, bad5, bad6, f2, drift, sid>>
+VARIABLES l, bad5, bad6, f2, drift, sid, hid
+tvars == <<vars, l, bad5, bad6, f2, drift, sid, hid>>
 
 SetOf(q) == {q[i] : i \in DOMAIN q}
 ObsOf(r) ==
@@ -34,13 +34,46 @@ Reset ==
   /\ tr' = [k \in TS |-> NoS] /\ trst' = [k \in TS |-> "free"]
   /\ ref' = [s \in SpanIds |-> 0] /\ stk' = [t \in Threads |-> << >>] /\ mopen' = [s \in SpanIds |-> FALSE]
   /\ good' = TRUE /\ tainted' = FALSE /\ lastop' = [op |-> "init"]
-  /\ sid' = [s \in SpanIds |-> 0]
+  /\ sid' = [s \in SpanIds |-> 0] /\ hid' = [s \in SpanIds |-> FALSE]
 
 \* C06: the registry's current span of the executing thread after the operation; C05: ids of live spans distinct
 CurOk(r) ==
   (r.op # "switch" /\ NoDup(ent'[r.t]) =>
         r.cur = (IF cur'[r.t] = 0 \/ SelectSeq(ent'[r.t], LAMBDA s : own'[s] = cur'[r.t]) = << >> THEN NoS
                  ELSE Last(SelectSeq(ent'[r.t], LAMBDA s : own'[s] = cur'[r.t]))))
+\* C06: the current span as every layer sees it from inside on_enter / on_exit is the registry's current span of the
+\* span's own registry after the operation
+CbOk(r) ==
+  (r.op \in {"enter", "exit"} /\ NoDup(ent'[r.t]) =>
+        r.cbcur = (LET q == SelectSeq(ent'[r.t], LAMBDA s : own'[s] = own[r.s]) IN IF q = << >> THEN NoS ELSE Last(q)))
+\* C06 under a per-layer filter: layer 3 is not shown the spans marked `hide`; its parents, scopes (by scope() and by
+\* repeated parent()) and closes are the registry's with the hidden spans left out; its current span is the most recently
+\* entered span it can see.  Named deviation
+\* HiddenParentHidesScope: an event whose direct parent is hidden may be shown an empty scope (Context::event_span
+\* looks the parent up through the filter and does not walk on) - either answer is accepted.
+VisH(q, h) == SelectSeq(q, LAMBDA s : s \in SpanIds /\ ~h[s])
+HidAfter(r) == IF r.op = "new" THEN [hid EXCEPT ![n + 1] = r.hide] ELSE hid
+V3Ok(r) ==
+  ~r.plf \/
+  LET h == HidAfter(r) v == r.v3 IN
+  /\ v.ok
+  /\ IF r.op = "new" /\ ~r.hide
+       THEN /\ v.news = 1
+            /\ v.scope = <<n + 1>> \o VisH(Ancestors(r.par), h)
+            /\ v.par = (IF VisH(Ancestors(r.par), h) = << >> THEN NoS ELSE Head(VisH(Ancestors(r.par), h)))
+       ELSE v.news = 0
+  /\ v.closes = VisH(r.closes, h) /\ Len(v.cscopes) = Len(v.closes)
+  /\ \A i \in DOMAIN v.closes : v.cscopes[i] = VisH(Ancestors(v.closes[i]), h)
+  /\ IF r.op = "event"
+       THEN /\ v.events = 1
+            /\ CASE r.pk = "root" -> v.chain = << >>
+                 [] r.pk = "of" -> v.chain = VisH(r.chain, h) \/ (r.chain # << >> /\ Head(r.chain) \in SpanIds /\ h[Head(r.chain)] /\ v.chain = << >>)
+                 \* contextual: a filtered layer's current span is the most recently entered span IT can see (which
+                 \* need not be an ancestor of the thread's current span) - Context::lookup_current_filtered
+                 [] OTHER -> NoDup(ent[r.t]) =>
+                               LET q == SelectSeq(EntOf(r.t, cur[r.t]), LAMBDA s : ~h[s]) IN
+                               v.chain = (IF q = << >> THEN << >> ELSE VisH(Ancestors(Last(q)), h))
+       ELSE v.events = 0
 IdOk(r) == (r.op = "new" => r.serial = n' /\ r.id # 0 /\ \A s \in 1..n : (open[s] /\ own[s] = cur[r.t]) => sid[s] # r.id)
 
 \* Do, with the trace-only checks (current span, id uniqueness) folded into `good`
@@ -49,10 +82,11 @@ DoT(r) ==
   /\ AEffect(r, ObsOf(r))
   /\ MEffect(r)
   /\ tainted' = (tainted \/ Hazard(r))
-  /\ good' = (good /\ AOk(r, ObsOf(r)) /\ (SetOf(r.live) = {s \in 1..n' : open'[s]}) /\ CurOk(r) /\ IdOk(r))
+  /\ good' = (good /\ AOk(r, ObsOf(r)) /\ (SetOf(r.live) = {s \in 1..n' : open'[s]}) /\ CurOk(r) /\ CbOk(r) /\ V3Ok(r) /\ IdOk(r))
   /\ lastop' = r
 
 TraceInit == Init /\ l = 0 /\ bad5 = << >> /\ bad6 = << >> /\ f2 = << >> /\ drift = << >> /\ sid = [s \in SpanIds |-> 0]
+             /\ hid = [s \in SpanIds |-> FALSE]
 TraceNext ==
   /\ l < Len(Rec)
   /\ l' = l + 1
@@ -60,21 +94,22 @@ TraceNext ==
        CASE r.ev = "reset" -> Reset /\ UNCHANGED <<bad5, bad6, f2, drift>>
          \* the last references of a span released by several threads at once (RefCountRace): closed exactly once, each round
          [] r.ev = "racedrop" ->
-              /\ UNCHANGED <<vars, sid, bad6, f2, drift>>
+              /\ UNCHANGED <<vars, sid, hid, bad6, f2, drift>>
               /\ bad5' = (IF r.closes = r.rounds /\ r.dup = 0 /\ r.missing = 0 /\ r.panics = 0 /\ ~("panic" \in DOMAIN r) THEN bad5 ELSE Append(bad5, l + 1))
-         [] r.ev = "crash" -> UNCHANGED <<vars, sid>> /\ bad5' = Append(bad5, l + 1) /\ bad6' = Append(bad6, l + 1) /\ UNCHANGED <<f2, drift>>
+         [] r.ev = "crash" -> UNCHANGED <<vars, sid, hid>> /\ bad5' = Append(bad5, l + 1) /\ bad6' = Append(bad6, l + 1) /\ UNCHANGED <<f2, drift>>
          \* after an F2 hazard the real registries may be corrupted, and after a first disagreement the
          \* model no longer tracks the implementation: the rest of that history is not judged
          [] r.ev = "op" /\ (tainted \/ ~good) ->
-              UNCHANGED <<vars, sid, bad5, bad6, f2, drift>>
+              UNCHANGED <<vars, sid, hid, bad5, bad6, f2, drift>>
          [] r.ev = "op" /\ ~(tainted \/ ~good) ->
-              IF ~Sane(r) THEN UNCHANGED <<cur, avars, mvars, tainted, lastop, sid, f2, drift>> /\ good' = FALSE
+              IF ~Sane(r) THEN UNCHANGED <<cur, avars, mvars, tainted, lastop, sid, hid, f2, drift>> /\ good' = FALSE
                                /\ bad5' = Append(bad5, l + 1) /\ bad6' = Append(bad6, l + 1)
               ELSE
               /\ DoT(r)
               /\ sid' = IF r.op = "new" THEN [sid EXCEPT ![n + 1] = r.id] ELSE sid
+              /\ hid' = HidAfter(r)
               /\ LET ok5 == AOk5(r, ObsOf(r)) /\ SetOf(r.live) = {s \in 1..n' : open'[s]} /\ IdOk(r)
-                     ok6 == AOk6(r, ObsOf(r)) /\ CurOk(r)
+                     ok6 == AOk6(r, ObsOf(r)) /\ CurOk(r) /\ CbOk(r) /\ V3Ok(r)
                  IN
                    \* only the first failing operation of a behaviour is reported (later ones may be consequences)
                    /\ bad5' = (IF ok5 \/ ~good \/ tainted' THEN bad5 ELSE Append(bad5, l + 1))
